@@ -656,7 +656,7 @@ def _dec(tree, b, pv, top, validate):
         return _dec_scalar(t, b, validate)
     if t in ("frozen", "reversed"):
         return _dec(tree["of"], b, pv, top, validate)
-    if len(b) == 0 and t != "vector":
+    if len(b) == 0 and not (t == "vector" and tree["dim"] == 0):
         return dict(EMPTY)
     if t in ("list", "set", "map"):
         width = 2 if (top and pv < 3) else 4
